@@ -1131,60 +1131,88 @@ def hybrid(cmds, ctx_args, top, model, env, stop_lt=False, undispatchable=None):
     return H
 
 
+def counterfactual(cmds, ctx_args, table, model, env):
+    """Free-running reference under `model` in which exactly the (opcode, stack-before) pairs of `table` behave as the
+    library was observed to behave - "what if only these deviations existed"."""
+    mm = tuple(m for m in model if m != 'CMS_REWRITE')
+    prog = _cms_rewrite(cmds, env) if 'CMS_REWRITE' in model else cmds
+
+    def hook(j, opcode, before):
+        return table.get((opcode, tuple(before)))
+    return si.verify(prog, si.Ctx(model=mm, **ctx_args), hook=hook)
+
+
 def attribute_program(cmds, ctx_args, env, log, valid, lib_stack, R, kind, unimpl, exc, mon):
-    """-> mechanism name (without the C19/ prefix) that fully explains the library's verdict and final stack, or None."""
+    """-> mechanism name (without the C19/ prefix) or None.
+
+    1. Explanation: the smallest set M of dispatch-level attribution models under which the consensus loop, fed with
+       the library's observed step results and aligned step by step with the library's log, ends exactly like the
+       library did (verdict and final stack).  No such set -> None (unattributed).
+    2. Naming: the first element of M, else the first deviating step, whose removal alone changes the outcome."""
+    import itertools
     top = [e for e in log if e.depth == 0 and e.name not in IF_METHODS]
     devs = [e for e in log if e.dev]
     libst = [bytes(x) for x in lib_stack] if lib_stack is not None and all_bytes(lib_stack) else None
 
-    def explains(H):
+    def same(H):
         if H is None or H.ok != valid:
             return False
-        return (not valid) or (libst is not None and H.stack[:-1] == libst)
+        if kind == 'final-stack' or valid:
+            return libst is not None and H.stack[:-1] == libst
+        return True
 
+    undisp = None
+    if exc is not None and type(exc).__name__ in ('ScriptError', 'KeyError'):
+        impl = implemented_by_dispatch(mon.Stack)
+        undisp = ({0x50} | set(range(0x61, 0x100))) - impl - {0x63, 0x64, 0x67, 0x68}
     if kind == 'false-reject' and unimpl and set(unimpl) <= LT_FAMILY and exc is not None and type(exc).__name__ == 'ScriptError':
         try:
             hybrid(cmds, ctx_args, top, (), env, stop_lt=True)
         except StoppedAtLT:
             if all(hasattr(mon.Stack, m) for m in ('op_numlessthan', 'op_numgreaterthan', 'op_numlessthanorequal', 'op_numgreaterthanorequal')):
                 return 'dispatch/lessthan-family-unreachable'
+    if any(not e.dev.startswith('C19/') for e in devs):
+        return None                      # an unattributed step deviation took part: nothing may absorb this
+    names = DISPATCH_MODELS[1:]
+    found = None
+    for r in range(0, len(names) + 1):
+        for combo in itertools.combinations(range(len(names)), r):
+            model = tuple(x for i in combo for x in names[i][1])
+            if same(hybrid(cmds, ctx_args, top, model, env, undispatchable=undisp)):
+                found = combo
+                break
+        if found is not None:
+            break
+    if found is None:
         return None
-
-    def first_dev():
-        keyed = [e.dev for e in devs if e.dev.startswith('C19/')]
-        if devs and len(keyed) == len(devs):
-            return keyed[0][len('C19/'):]
+    M = [names[i] for i in found]
+    sub = [e for e in devs if e.depth == 0 and e.name not in IF_METHODS and e.before is not None and all_bytes(e.after)]
+    if not M and not devs:
         return None
+    table = {(METHOD_OP[e.name], tuple(bytes(x) for x in e.before)): (e.ok, [bytes(x) for x in e.after]) for e in sub}
+    full = tuple(x for nm, mm in M for x in mm)
 
-    def decisive(model):
-        """does the dispatch-level departure alone (no substituted step results) give the library's verdict?"""
-        mm = tuple(m for m in model if m != 'CMS_REWRITE')
-        prog = _cms_rewrite(cmds, env) if 'CMS_REWRITE' in model else cmds
-        P = si.verify(prog, si.Ctx(model=mm, **ctx_args))
+    def keeps(model, tab):
+        P = counterfactual(cmds, ctx_args, tab, model, env)
+        if P.ok != valid:
+            return False
         if kind == 'final-stack':
-            return P.ok and libst is not None and P.stack[:-1] == libst
-        return P.ok == valid
+            return libst is not None and P.stack[:-1] == libst
+        return True
 
-    undisp = None
-    if exc is not None and type(exc).__name__ in ('ScriptError', 'KeyError'):
-        impl = implemented_by_dispatch(mon.Stack)
-        undisp = ({0x50} | set(range(0x61, 0x100))) - impl - {0x63, 0x64, 0x67, 0x68}
-    for name, model in DISPATCH_MODELS:
-        H = hybrid(cmds, ctx_args, top, model, env, undispatchable=undisp)
-        if explains(H):
-            if name and (not devs or decisive(model)):
-                return name
-            return first_dev()
-    # two dispatch-level departures at once
-    for i in range(1, len(DISPATCH_MODELS)):
-        for k in range(i + 1, len(DISPATCH_MODELS)):
-            model = DISPATCH_MODELS[i][1] + DISPATCH_MODELS[k][1]
-            H = hybrid(cmds, ctx_args, top, model, env, undispatchable=undisp)
-            if explains(H):
-                if not devs or decisive(model):
-                    return DISPATCH_MODELS[i][0] + '+' + DISPATCH_MODELS[k][0].split('/', 1)[1]
-                return first_dev()
-    return None
+    if keeps(full, table):
+        for nm, mm in M:
+            rest = tuple(x for n2, m2 in M if n2 != nm for x in m2)
+            if not keeps(rest, table):
+                return nm
+        for e in sub:
+            k = (METHOD_OP[e.name], tuple(bytes(x) for x in e.before))
+            t2 = {kk: v for kk, v in table.items() if kk != k}
+            if not keeps(full, t2):
+                return e.dev[len('C19/'):]
+    if M:
+        return M[0][0]
+    return devs[0].dev[len('C19/'):]
 
 
 # ====================================================================== program workload
